@@ -525,13 +525,20 @@ def corr_small(chk: C.Check, r: Any, thorough: bool, stats: dict[str, Any]) -> l
     def f_zd(v: Any) -> Any:
         raise ZeroDivisionError("z")
 
+    def f_ve(v: Any) -> Any:
+        raise ValueError("vz")
+
+    def f_ke(v: Any) -> Any:
+        raise KeyError("k")
+
     def f_args(v: Any, a: Any) -> Any:
         return "A"
 
     env = Environment()
-    env.filters.update({"fok": f_ok, "fte": f_te, "flte": f_lte, "flve": f_lve, "fzd": f_zd, "fargs": f_args})
+    env.filters.update({"fok": f_ok, "fte": f_te, "flte": f_lte, "flve": f_lve, "fzd": f_zd, "fve": f_ve, "fke": f_ke, "fargs": f_args})
     calls = {"fok": "(FRet {v})", "fte": "(FRaise (FTypeError {m}))", "flte": "(FRaise (FLiquidTypeError {m} None))",
-             "flve": "(FRaise (FOtherLiquid LiquidValueError None))", "fzd": "(FRaise (FPy ZeroDivisionError))"}
+             "flve": "(FRaise (FOtherLiquid LiquidValueError None))", # ValueError and ArithmeticError are converted like TypeError (/repo 8585e2b); a KeyError escapes
+             "fzd": "(FRaise (FTypeError {m}))", "fve": "(FRaise (FTypeError {m}))", "fke": "(FRaise (FPy KeyError))"}
     for name, tmpl in calls.items():
         for pad in ("", "   "):
             t = env.from_string("{{" + pad + " 1 | " + name + " }}")
@@ -547,14 +554,14 @@ def corr_small(chk: C.Check, r: Any, thorough: bool, stats: dict[str, Any]) -> l
             ctx = RenderContext(t)
             outs = (msg_outcome(lambda: flt.evaluate(1, ctx)), msg_outcome(lambda: arun(flt.evaluate_async(1, ctx))))
             both("Filter.evaluate", outs[0][:3], outs[1][:3], {"filter": name})
-            m = {"fte": "boom", "flte": "lboom"}.get(name, "")
+            m = {"fte": "boom", "flte": "lboom", "fzd": "z", "fve": "vz"}.get(name, "")
             call = tmpl.format(v=C.cstr("R"), m=C.cstr(m))
             for fn, o in zip(("filter_evaluate", "filter_evaluate_async"), outs):
                 if o[0] == "ok":
                     exp = f"MOk {C.cstr(o[1])}"
                 elif o[0] == "err":
                     # messages of errors that the filter raised itself are not modelled
-                    msg = C.cstr(o[3]) if name in ("fte", "flte") else "[]"
+                    msg = C.cstr(o[3]) if name in ("fte", "flte", "fzd", "fve") else "[]"
                     exp = f"MLErr {o[1]} {msg} {C.copt(C.cZ(o[2]) if o[2] is not None else None, 'Z')}"
                 else:
                     exp = f"MPy {o[1]}"
@@ -1191,7 +1198,7 @@ def corr_interleaved_loader(chk: C.Check, r: Any, thorough: bool, stats: dict[st
                 cached, _twin, stores = c14._mk_loaders(kind, cap, ar, nsk, root)
                 for i, key in enumerate(keys):
                     stores[0][1][key] = c14._src(10 + i)
-                env = Environment(loader=cached)
+                env = Environment(loader=cached, globals={"e": "E"})   # c14._src prints the Environment's global too
 
                 async def co(calls: list[tuple]) -> list[tuple]:
                     out: list[tuple] = []
